@@ -28,9 +28,11 @@ WORKERS = 8
 FILES = ["route/common_test.go", "route/c03_test.go"]
 
 
-def cfg(spec, n, core=False, inv=False):
-    return CFG % dict(spec=spec, n=n, pats="MCCorePats" if core else "MCAllPats",
-                      paths="MCCorePaths" if core else "MCAllPaths", inv=INV if inv else "")
+UNI = {"full": ("MCAllPats", "MCAllPaths"), "core": ("MCCorePats", "MCCorePaths"), "mini": ("MCMiniPats", "MCMiniPaths")}
+
+
+def cfg(spec, n, uni="full", inv=False):
+    return CFG % dict(spec=spec, n=n, pats=UNI[uni][0], paths=UNI[uni][1], inv=INV if inv else "")
 
 
 def count_lines(path):
@@ -53,16 +55,17 @@ def run_harness(ctx, cases, what, timeout=900):
 def run(ctx):
     ctx.level = "model_checking"
     ctx.assumptions += [
-        "universe: 12 host patterns (none, a.io, *.io, *.a.io, b.a.io, *a.io, *, a.io:80, a.io:8080, A.io, a.io:443, *.io:8080) x 8 route paths (/, /x, /x/y, /X/y, /xy, /x*, /x/y*, /*); 11 request hosts (a.io, A.IO, b.a.io, B.a.Io, c.b.a.io, xa.io, q.net, a.io:80, a.io:443, a.io:8080, A.iO:8080) x 7 request paths x TLS/plain x 3 matchers x glob on/off",
+        "universe: 19 host patterns (none, a.io, *.io, *.a.io, b.a.io, *a.io, *, a.io:80, a.io:8080, A.io, a.io:443, *.io:8080, IPv6 literals [::1] [::1]:80 [::1]:8080 [::A], glob constructs {b,c}.a.io ?.a.io [bc].a.io) x 8 route paths (/, /x, /x/y, /X/y, /xy, /x*, /x/y*, /*); 19 request hosts (a.io, A.IO, b.a.io, B.a.Io, c.b.a.io, xa.io, q.net, a.io:80, a.io:443, a.io:8080, A.iO:8080, [::1], [::1]:80, [::1]:443, [::1]:8080, [::a], [::A]:80, c.a.io, d.a.io) x 7 request paths x TLS/plain x 3 matchers x glob on/off",
+        "a pattern that is literally the request host is an exact host whatever characters it contains ([::1] is a host, not a character class); otherwise, with globbing on, the pattern is read in the glob language (* ? [set] {a,b}) and is a wildcard host; among wildcard hosts the longer literal suffix after the last glob construct wins; two matching wildcard patterns with equal suffix length, or a '*' pattern with the longer suffix against a '*'-free pattern, are not ranked by the statement: such (table, request) pairs are generated as 'not posed'",
         "a table in which two different host patterns denote the same host on the connection at hand (a.io / a.io:80 / A.io), or two paths of one host that the matcher cannot tell apart (/X/y and /x/y under iprefix, /x* and /x under glob), is outside the claim (the statement does not rank them); such expectations are generated as 'not posed' and skipped",
-        "host globs beyond a leading '*' and glob paths beyond literal + trailing '*' are outside the universe; path characters sorting below '*' (space ! \" # $ % & ' ( )) are outside the universe",
+        "nested braces, negated classes, ranges and '**' in host patterns and glob paths beyond literal + trailing '*' are outside the universe; path characters sorting below '*' (space ! \" # $ % & ' ( )) are outside the universe",
         "Table.LookupHost (TCP+SNI): only 'a route whose host is literally the server name, path /, serves it' is claimed; fallback to host-less or wildcard routes for SNI lookups is not judged",
         "one target per route (the service name encodes the route), so the picker plays no role here (C04)",
     ]
     # 1. well-definedness of the declarative choice on the model
-    mcs = [("core<=2", cfg("QSpec", 2, core=True, inv=True), 300)]
+    mcs = [("core<=2", cfg("QSpec", 2, "core", inv=True), 300)]
     if ctx.thorough:
-        mcs = [("full<=2", cfg("QSpec", 2, inv=True), 900), ("core<=3", cfg("QSpec", 3, core=True, inv=True), 1500)]
+        mcs = [("full<=2", cfg("QSpec", 2, "full", inv=True), 1500), ("mini<=3", cfg("QSpec", 3, "mini", inv=True), 1500)]
     for name, text, to in mcs:
         mc = ctx.tlc("Match_MC", cfg_text=text, workers=WORKERS, timeout=to, coverage=ctx.thorough)
         ctx.log("MC %s: %d generated, %d distinct, %.0fs" % (name, mc.generated, mc.distinct, mc.wall))
@@ -75,19 +78,19 @@ def run(ctx):
 
     # 2. case generation
     cases = os.path.join(ctx.tmp, "c03.cases")
-    gens = [("full<=2", cfg("Spec", 2), 600)]
+    gens = [("full<=1", cfg("Spec", 1, "full"), 300), ("core<=2", cfg("Spec", 2, "core"), 600)]
     if ctx.thorough:
-        gens.append(("core<=3", cfg("Spec", 3, core=True), 1500))
+        gens = [("full<=2", cfg("Spec", 2, "full"), 1500), ("mini<=3", cfg("Spec", 3, "mini"), 1500)]
     for name, text, to in gens:
         g = ctx.tlc("Match_MC", cfg_text=text, workers=WORKERS, json_sink=cases, timeout=to)
         ctx.log("Gen %s: %d transitions, %d states, %.0fs" % (name, g.generated, g.distinct, g.wall))
         if not ctx.need_tlc_ok(g, "Match Gen " + name):
             return
         ctx.cover("gen " + name, states=g.distinct, transitions=g.generated)
-    sims = [(3, ctx.pick(400, 3000))]
+    sims = [(3, ctx.pick(300, 2000))]
     if ctx.thorough:
-        sims.append((4, 3000))
-        sims.append((6, 1000))
+        sims.append((4, 2000))
+        sims.append((6, 700))
     for n, num in sims:
         before = count_lines(cases)
         sim = ctx.tlc("Match_MC", cfg_text=cfg("SimSpec", n), simulate=num, depth=n + 3, seed=ctx.seed,
